@@ -256,7 +256,32 @@ func (fr *Frame) callArgs(x *ssa.Call, args []Value) Value {
 			return r
 		}
 		it.pendingBinds = binds
-		r := it.callFn(callee, args, inLoop)
+		var r Value
+		if len(binds) == 0 && errorOnlyFn(it.P, callee) {
+			// a function that can only report an error (no pointer-like parameter, no store outside its own frame, no
+			// module callee, every return a non-nil error): if the domains cannot follow its body (a validation loop over
+			// a string of unbounded length), its effect is still known - nothing - and its result is some non-nil error
+			mark := len(it.journal)
+			depth := it.depth
+			stack := len(it.stack)
+			func() {
+				defer func() {
+					if e := recover(); e != nil {
+						if _, isAbort := e.(*abort); !isAbort {
+							panic(e)
+						}
+						it.undoTo(mark)
+						it.depth = depth
+						it.stack = it.stack[:stack]
+						o := it.NewObject(types.Typ[types.Int], "error of "+callee.Name(), false)
+						r = Iface{Dyn: Ptr{o.Root}}
+					}
+				}()
+				r = it.callFn(callee, args, inLoop)
+			}()
+		} else {
+			r = it.callFn(callee, args, inLoop)
+		}
 		if o, ok := it.Cfg.OriginOf[callee]; ok {
 			if t, isTop := r.(Top); isTop {
 				t.Origin = o
@@ -332,6 +357,36 @@ func (fr *Frame) builtin(x *ssa.Call, name string, args []Value) Value {
 				}
 			}
 			it.abortf("copy into a slice with a symbolic offset in %s", fr.fn)
+		}
+		if ab, isAB := asArrayBuf(args[0]); isAB {
+			args = append([]Value{ab}, args[1:]...)
+		} else if sv, isS := args[0].(SliceV); isS && sv.Lo == 0 && sv.Arr.Up == nil && len(sv.Arr.Kids) > 0 && len(sv.Arr.Kids) <= 4096 {
+			// copy of a string of symbolic length into a whole, still all-zero fixed byte array (a stack buffer in place
+			// of an allocation): from here on the array is followed as a buffer whose content is symbolic
+			if src, isA := args[1].(AbsSlice); isA {
+				if _, conc := it.asSlice(src); !conc {
+					if n, isC := it.ApplyTerm(sv.Len).IsConst(); isC && int(n.Int64()) == len(sv.Arr.Kids) {
+						if bt, isB := sv.Arr.Kids[0].Typ.Underlying().(*types.Basic); isB && bt.Kind() == types.Uint8 {
+							zero := true
+							for _, c := range sv.Arr.Kids {
+								if k, isK := it.loadValue(c).(KInt); !isK || k.V.Sign() != 0 {
+									zero = false
+								}
+							}
+							if zero {
+								dl := TInt(int64(len(sv.Arr.Kids)))
+								sl := it.ApplyTerm(src.Length())
+								if lo, _ := dl.Sub(sl).Bounds(); lo.Sign() < 0 {
+									it.abortf("copy of %s bytes into an array of %s bytes in %s", sl, dl, fr.fn)
+								}
+								it.setCell(sv.Arr, AbsSlice{Segs: []Seg{{Zeros: true, Len: dl}}})
+								it.bufWrite(sv.Arr, TInt(0), src.Segs, fr.fn)
+								return termValue(sl)
+							}
+						}
+					}
+				}
+			}
 		}
 		if bd, isBuf := args[0].(BufRef); isBuf {
 			if _, conc := it.bufConc(bd); !conc {
@@ -842,6 +897,35 @@ func (it *Interp) stdlib(fr *Frame, x *ssa.Call, fn *ssa.Function, args []Value)
 							it.storeValue(d.Arr.Kids[d.Lo+i], TermV{SymByte(fmt.Sprintf("unhex(%s)[%d]", name, i))})
 						}
 						return Tuple{KInt{big.NewInt(int64(n))}, SymIface{IsNil: SymBool("hexvalid(" + name + ")"), Name: "hex error"}}
+					}
+				}
+			}
+			// into a whole, still all-zero fixed byte array (a stack buffer), from a string of symbolic length: the array is
+			// followed as a buffer from here on (see the copy builtin): unhex(h) followed by the untouched zeros
+			if sv, isS := args[0].(SliceV); isS && sv.Lo == 0 && sv.Arr.Up == nil && len(sv.Arr.Kids) > 0 && len(sv.Arr.Kids) <= 4096 {
+				if _, isC := it.ApplyTerm(src.Segs[0].Len).IsConst(); !isC {
+					if n, isN := it.ApplyTerm(sv.Len).IsConst(); isN && int(n.Int64()) == len(sv.Arr.Kids) {
+						zero := true
+						for _, c := range sv.Arr.Kids {
+							if k, isK := it.loadValue(c).(KInt); !isK || k.V.Sign() != 0 {
+								zero = false
+							}
+						}
+						// the decoded length must fit: len(h)/2 <= len(array), from the path's bound on len(h)
+						_, hiL := it.ApplyTerm(src.Segs[0].Len).Bounds()
+						if zero && hiL.IsInt64() && hiL.Int64()/2 <= int64(len(sv.Arr.Kids)) {
+							name := strings.TrimPrefix(src.Segs[0].Name, "str:")
+							out := SymBytes("unhex(" + name + ")")
+							rest := TInt(int64(len(sv.Arr.Kids))).Sub(out.Length())
+							if la := out.Length().SingleAtom(); la != nil {
+								if it.pathHi == nil {
+									it.pathHi = map[*IAtom]*big.Int{}
+								}
+								it.pathHi[la] = big.NewInt(hiL.Int64() / 2)
+							}
+							it.setCell(sv.Arr, AbsSlice{Segs: append(append([]Seg{}, out.Segs...), Seg{Zeros: true, Len: rest})})
+							return Tuple{termValue(out.Length()), SymIface{IsNil: SymBool("hexvalid(" + name + ")"), Name: "hex error"}}
+						}
 					}
 				}
 			}
@@ -1513,4 +1597,116 @@ func (it *Interp) stateIn(writes map[*Cell]cellState, c *Cell) cellState {
 		}
 	}
 	return cellState{c.Val, c.Rep}
+}
+
+// errorOnlyFn: fn takes no pointer-like parameter, returns exactly one value of type error, stores nothing outside
+// its own frame, calls no function of the module, and every return yields a provably non-nil error (a fresh
+// fmt.Errorf/errors.New value, or a package-level error variable that only an initialiser assigns, from errors.New).
+func errorOnlyFn(p *load.Prog, fn *ssa.Function) bool {
+	sig := fn.Signature
+	if sig.Recv() != nil || sig.Results().Len() != 1 || sig.Results().At(0).Type().String() != "error" || fn.Blocks == nil {
+		return false
+	}
+	for i := 0; i < sig.Params().Len(); i++ {
+		switch sig.Params().At(i).Type().Underlying().(type) {
+		case *types.Basic:
+		default:
+			return false
+		}
+	}
+	locals := map[ssa.Value]bool{}
+	for _, b := range fn.Blocks {
+		for _, in := range b.Instrs {
+			if a, ok := in.(*ssa.Alloc); ok {
+				locals[a] = true
+			}
+		}
+	}
+	var root func(v ssa.Value) ssa.Value
+	root = func(v ssa.Value) ssa.Value {
+		for {
+			switch x := v.(type) {
+			case *ssa.IndexAddr:
+				v = x.X
+			case *ssa.FieldAddr:
+				v = x.X
+			case *ssa.Slice:
+				v = x.X
+			default:
+				return v
+			}
+		}
+	}
+	nonNilErr := func(v ssa.Value) bool {
+		if mi, ok := v.(*ssa.MakeInterface); ok {
+			v = mi.X
+		}
+		switch x := v.(type) {
+		case *ssa.Call:
+			if c := x.Call.StaticCallee(); c != nil && c.Pkg != nil {
+				n := c.Pkg.Pkg.Path() + "." + c.Name()
+				return n == "fmt.Errorf" || n == "errors.New"
+			}
+		case *ssa.UnOp:
+			g, ok := x.X.(*ssa.Global)
+			if !ok || x.Op != token.MUL || !p.InModuleGlobal(g) {
+				return false
+			}
+			// assigned only by initialisers, from errors.New / fmt.Errorf
+			nst := 0
+			for _, f := range p.ModFuncs() {
+				for _, b := range f.Blocks {
+					for _, in := range b.Instrs {
+						st, isSt := in.(*ssa.Store)
+						if !isSt || st.Addr != g {
+							continue
+						}
+						nst++
+						if !isInit(f) {
+							return false
+						}
+						c, isC := st.Val.(*ssa.Call)
+						if !isC || c.Call.StaticCallee() == nil || c.Call.StaticCallee().Pkg == nil {
+							return false
+						}
+						n := c.Call.StaticCallee().Pkg.Pkg.Path() + "." + c.Call.StaticCallee().Name()
+						if n != "errors.New" && n != "fmt.Errorf" {
+							return false
+						}
+					}
+				}
+			}
+			return nst > 0
+		}
+		return false
+	}
+	for _, b := range fn.Blocks {
+		for _, in := range b.Instrs {
+			switch x := in.(type) {
+			case *ssa.Store:
+				if !locals[root(x.Addr)] {
+					return false
+				}
+			case ssa.CallInstruction:
+				if c := x.Common().StaticCallee(); c != nil && p.InModule(c) {
+					return false
+				}
+				if x.Common().StaticCallee() == nil && !x.Common().IsInvoke() {
+					if _, isB := x.Common().Value.(*ssa.Builtin); !isB {
+						return false
+					}
+				}
+				if _, isGo := in.(*ssa.Go); isGo {
+					return false
+				}
+			case *ssa.Return:
+				if len(x.Results) != 1 || !nonNilErr(x.Results[0]) {
+					return false
+				}
+			case *ssa.Send, *ssa.MapUpdate:
+				return false
+			}
+		}
+	}
+	return true
 }
